@@ -101,7 +101,8 @@ def hostile_snapshot(rng, schema, kinds):
             s.pop("sample_count", None)
         kinds.add("waveform:without-rate-or-count")
     if r() < 0.3:
-        s["sample_rate"] = rng.choice([GS.dbits(0.5), GS.dbits(0.0), GS.dbits(1e-9), GS.dbits(0.999), GS.dbits(-44100.0)] + HUGE)
+        s["sample_rate"] = rng.choice([GS.dbits(0.5), GS.dbits(0.0), GS.dbits(1e-9), GS.dbits(0.999), GS.dbits(-44100.0), GS.dbits(-1.0),
+                                       GS.dbits(-1.5), GS.dbits(1.0)] + HUGE)
         kinds.add("sample_rate:degenerate")
     if r() < 0.2:
         s["sample_count"] = rng.choice([0, 1, 2 ** 62, 2 ** 63 - 1, 2 ** 63, 2 ** 64 - 1])
@@ -160,7 +161,7 @@ def hostile_setter(rng, schema, th, kinds):
     elif field in ("bpm", "average_loudness", "main_cue", "sample_rate"):
         val = rng.choice([None, hostile_double(rng, kinds, field)])
         if field == "sample_rate":
-            val = rng.choice([val, GS.dbits(0.5), GS.dbits(0.0)])
+            val = rng.choice([val, GS.dbits(0.5), GS.dbits(0.0), GS.dbits(-1.0), GS.dbits(-1.9)])
             kinds.add("sample_rate:degenerate")
     elif field == "sample_count":
         val = rng.choice([None, 0, 1, 2 ** 63, 2 ** 64 - 1])
